@@ -10,14 +10,16 @@
    a second invocation.  (The exception is an expert node told to run again by make_stale or by an
    edge being added or removed, which is the documented way to ask for exactly that.)
 
-   Not proved here: that the recompute heap releases nodes in an order in which every input has
-   already reached its final value (the height order and its maintenance under dynamic rewiring).
+   Also proved: the heap releases a queued node of minimal height (last theorem).
+   Not proved here: that every input of a node is strictly lower than it whenever both are queued (the
+   height invariant and its maintenance under dynamic rewiring), which is what turns "minimal height
+   first" into "every input has already reached its final value".
    That half, and the invocation counts themselves, are decided by the comparison of the model with
    the crate on generated histories plus the from-scratch oracle: see DESIGN.md. *)
 From stdpp Require Import base list option numbers.
 From RecordUpdate Require Import RecordUpdate.
 From Incr.Model Require Import Base Live Engine Api.
-From Incr.Proofs Require Import Pres Stamps FrameStampsOk FrameStamped Histories.
+From Incr.Proofs Require Import Pres Stamps FrameStampsOk FrameStamped RchInv RchMin Histories.
 Local Open Scope Z_scope.
 
 (* [stamps_ok s]: the stabilisation number is not negative; no node's recomputed_at or changed_at and
@@ -78,6 +80,21 @@ Theorem C02_once_recomputed_never_stale_again_in_the_same_stabilisation :
       (match node_kind x' with Some (KExpert _) => True | _ => is_stale s' x' = false end).
 Proof. exact stamped_rest_of_propagation. Qed.
 
+(* nodes are released in height order: from a state in which the heap is consistent (every state of a
+   debug-build history is: C11), remove_min returns a queued node whose height in the heap is minimal
+   among all queued nodes *)
+Theorem C02_heap_releases_a_node_of_minimal_height :
+  forall s r s',
+    debug s = true -> rch_inv s -> rch_extra s ->
+    rch_remove_min s = (Ok r, s') ->
+    match r with
+    | Some n => exists x, nodes s !! n = Some x /\ 0 <= n_height_in_rch x
+                  /\ forall m y, nodes s !! m = Some y -> 0 <= n_height_in_rch y ->
+                       n_height_in_rch x <= n_height_in_rch y
+    | None => True
+    end.
+Proof. exact rch_remove_min_is_min. Qed.
+
 (* non-vacuity: a diamond — the join is invoked once per stabilisation (events are logged newest
    first), and every node recomputed in the last stabilisation carries that stabilisation's number *)
 Example C02_nonvacuous :
@@ -96,3 +113,4 @@ Print Assumptions C02_expert_recomputed_in_this_stabilisation_is_stale_only_on_r
 Print Assumptions C02_recompute_stamps_the_node.
 Print Assumptions C02_after_its_recompute_a_node_is_not_stale.
 Print Assumptions C02_once_recomputed_never_stale_again_in_the_same_stabilisation.
+Print Assumptions C02_heap_releases_a_node_of_minimal_height.
